@@ -431,6 +431,7 @@ def main (args : List String) : IO Unit := do
       | "eval" => runG seed (evalOps (n 0 1000))
       | "search" => runG seed (searchOps (n 0 20) (n 1 30) ((rest.drop 2).map fun a => a.replace "_" " "))
       | "mate" => runG seed (mateOps (n 0 20) ((rest.drop 1).map fun a => a.replace "_" " "))
+      | "matesoon" => runG seed (mateSoonOps (n 0 20) ((rest.drop 1).map fun a => a.replace "_" " "))
       | "retromate" => runG seed (retroMateOps (n 0 20) ((rest.drop 1).map fun a => a.replace "_" " "))
       | "rep" => runG seed (repOps (n 0 20) (n 1 30) (n 2 4) ((rest.drop 3).map fun a => a.replace "_" " "))
       | "cap" => runG seed (capOps (n 0 50) (n 1 30) (n 2 6))
